@@ -25,7 +25,62 @@ def _short(m):
 def shorten(t):
     """function paths keep their last two segments (SerialNumber::new), type paths inside
     `<X as Trait>` qualifiers and generic positions keep one (Iter, Iterator)"""
-    return _PATHSEG.sub(_short, t)
+    r = _PATHSEG.sub(_short, t)
+    if 'try(phi(' in r:
+        r = _unwrap_try(r)
+    return r
+
+
+def _match_paren(s, i):
+    """index of the parenthesis closing the one opened at s[i]"""
+    d = 0
+    for j in range(i, len(s)):
+        if s[j] == '(':
+            d += 1
+        elif s[j] == ')':
+            d -= 1
+            if d == 0:
+                return j
+    return -1
+
+
+def _unwrap_try(r):
+    """`try(phi(from_residual(..)|Result::Ok(v)))@Continue.0` is v: the value a Result-returning helper (expanded into its caller)
+    hands to the caller's `?` on the only path on which that `?` continues"""
+    for _ in range(6):
+        i = r.find('try(phi(')
+        while i != -1:
+            e = _match_paren(r, i + 3)
+            if e != -1 and r.startswith('@Continue', e + 1):
+                inner = r[i + 8:e - 1]
+                alts, d, cur = [], 0, ''
+                for ch in inner:
+                    if ch == '(':
+                        d += 1
+                    elif ch == ')':
+                        d -= 1
+                    if ch == '|' and d == 0:
+                        alts.append(cur)
+                        cur = ''
+                    else:
+                        cur += ch
+                alts.append(cur)
+                oks = [a for a in alts if re.match(r'^(Result::Ok|Option::Some)\(', a) and _match_paren(a, a.index('(')) == len(a) - 1]
+                rest = [a for a in alts if a not in oks]
+                resid = lambda a: bool(re.match(r'^<[^()]*FromResidual<[^()]*>::from_residual\(', a)) or a == 'Option::None' or a.startswith('Result::Err(')
+                if len(oks) == 1 and rest and all(resid(a) for a in rest) and r.startswith('@Continue.0', e + 1):
+                    v = oks[0][oks[0].index('(') + 1:-1]
+                    r = r[:i] + v + r[e + 1 + len('@Continue.0'):]
+                    break
+                live = [a for a in alts if not resid(a)]
+                if len(live) == 1 and len(live) < len(alts):
+                    # the helper's own early error returns cannot be the value that continues
+                    r = r[:i] + 'try(' + live[0] + ')' + r[e + 1:]
+                    break
+            i = r.find('try(phi(', i + 1)
+        else:
+            return r
+    return r
 
 
 class Site:
@@ -91,6 +146,17 @@ class Ctx:
     def fn(self, rule, path):
         """anchor lookup; a missing anchor is a violation (fail closed)"""
         f = self.prog.fn(path)
+        if f is None and '::{closure@' in path:
+            # the closure may have moved, with the code around it, into a transparent helper that was expanded into its former
+            # parent (engine/inline.py): the unique closure of the same role in those helpers takes its place
+            parent, rest = path.split('::{closure@', 1)
+            role = rest.split('#', 1)[0]
+            tail = rest.split('}', 1)[1]
+            pf = self.prog.fn(parent)
+            if pf is not None:
+                cands = [g for h in self.helpers_in(pf) for g in self.prog.find('^' + re.escape(h) + r'::\{closure@' + re.escape(role) + r'#\d+\}' + re.escape(tail) + '$')]
+                if len(cands) == 1:
+                    f = cands[0]
         if f is None:
             self.oblige(rule, False)
             self.violation(rule, path, 'anchor', 'anchor-missing',
@@ -98,6 +164,18 @@ class Ctx:
             return None
         self.anchors.add(path)
         return f
+
+    @staticmethod
+    def helpers_in(f):
+        """paths of the transparent helpers that were expanded into f"""
+        return sorted({b['inl'] for b in f.blocks if b.get('inl')})
+
+    def closures_of(self, f):
+        """closures defined in f or in a transparent helper expanded into f (nested ones included)"""
+        out = []
+        for par in [f.path] + self.helpers_in(f):
+            out += self.prog.find('^' + re.escape(par) + r'::\{closure[^}]*\}')
+        return out
 
     def fns(self, rule, regex, floor=1):
         fs = self.prog.find(regex)
@@ -259,8 +337,11 @@ class Ctx:
         shortened normal-form propositions, without anchors): nothing else can make it true and nothing else can make it
         false.  Every true return crosses, for each clause, an edge establishing one of its propositions; every false
         return crosses the negation of every proposition of some clause."""
-        pos = [[re.compile('^(?:' + p + ')$') for p in cl] for cl in clauses]
-        neg = [[re.compile('^(?:' + p[1:] + ')$') if p.startswith('!') else re.compile('^!(?:' + p + ')$') for p in cl] for cl in clauses]
+        # a literal is a regex, or a pair (regex, regex of its negation) where the negation has its own normal form
+        # (primitive comparisons: !lt(a,b) is rendered le(b,a))
+        pos = [[re.compile('^(?:' + (p[0] if isinstance(p, tuple) else p) + ')$') for p in cl] for cl in clauses]
+        neg = [[re.compile('^(?:' + p[1] + ')$') if isinstance(p, tuple) else
+                (re.compile('^(?:' + p[1:] + ')$') if p.startswith('!') else re.compile('^!(?:' + p + ')$')) for p in cl] for cl in clauses]
         tr, fr = self.true_returns(fn), self.false_returns(fn)
 
         def crosses_any(site, rxs):
@@ -571,6 +652,12 @@ def iter_consts(rv):
 
 
 # ------------------------------------------------------------------ evidence
+def EVD():
+    """evidence directory; VERIF_EVIDENCE_DIR redirects it for scratch runs (self-tests), so that the committed evidence always comes
+    from a run against /repo itself"""
+    return os.environ.get('VERIF_EVIDENCE_DIR') or os.path.join(VERIF, 'evidence')
+
+
 def finish(cx, explanation, assumptions, not_decided, known_file=None):
     """print the verdict, write evidence + replay files; returns the exit code"""
     known_file = known_file or os.path.join(VERIF, 'known_findings.json')
@@ -582,7 +669,7 @@ def finish(cx, explanation, assumptions, not_decided, known_file=None):
     fresh, listed = [], []
     for v in cx.violations:
         (listed if v['key'] in known else fresh).append(v)
-    os.makedirs(os.path.join(VERIF, 'evidence', 'replay'), exist_ok=True)
+    os.makedirs(os.path.join(EVD(), 'replay'), exist_ok=True)
     for v in listed:
         print(f"KNOWN-FINDING: property={cx.prop} {known[v['key']]['id']} {known[v['key']]['what']} [{v['rule']} {v['loc']}]")
     # a listed finding that no longer fires is reported (informational, not an alarm)
@@ -593,10 +680,10 @@ def finish(cx, explanation, assumptions, not_decided, known_file=None):
     code = 0
     seen_keys = set()
     keep = {f'{cx.prop}-' + hashlib.sha1(v['key'].encode()).hexdigest()[:12] + '.json' for v in fresh}
-    for fn_ in os.listdir(os.path.join(VERIF, 'evidence', 'replay')):
+    for fn_ in os.listdir(os.path.join(EVD(), 'replay')):
         if fn_.startswith(cx.prop + '-') and fn_ not in keep:
             try:
-                os.unlink(os.path.join(VERIF, 'evidence', 'replay', fn_))
+                os.unlink(os.path.join(EVD(), 'replay', fn_))
             except OSError:
                 pass
     for v in fresh:
@@ -604,7 +691,7 @@ def finish(cx, explanation, assumptions, not_decided, known_file=None):
             continue
         seen_keys.add(v['key'])
         h = hashlib.sha1(v['key'].encode()).hexdigest()[:12]
-        rp = os.path.join(VERIF, 'evidence', 'replay', f'{cx.prop}-{h}.json')
+        rp = os.path.join(EVD(), 'replay', f'{cx.prop}-{h}.json')
         json.dump(v, open(rp, 'w'), indent=1)
         print(f"  rule={v['rule']} fn={v['fn']} site={v['site']} {v['what']} @ {v['loc']}\n     {v['detail']}")
         print(f"VIOLATION property={cx.prop} replay={rp}")
@@ -637,7 +724,7 @@ def finish(cx, explanation, assumptions, not_decided, known_file=None):
         'wall_s': wall,
         'violations': len(seen_keys),
     }
-    p = os.path.join(VERIF, 'evidence', cx.prop + '.json')
+    p = os.path.join(EVD(), cx.prop + '.json')
     json.dump(ev, open(p + '.tmp', 'w'), indent=1)
     os.replace(p + '.tmp', p)
     print(f"[{cx.prop}] tier={cx.tier} obligations={cx.obligations} discharged={cx.discharged} "
